@@ -546,7 +546,8 @@ func (obj *Package) Unexport(name string) {
 func (obj *Package) Undefine(name string) {
 	name = strings.ToLower(name)
 	obj.mu.Lock()
-	if fi := obj.funcs[name]; fi != nil {
+	// A function inherited from a used package is not the package's to remove.
+	if fi := obj.funcs[name]; fi != nil && (fi.Pkg == obj || fi.Pkg == nil || obj.Imports[name] != nil) {
 		delete(obj.funcs, name)
 		for _, u := range obj.Users {
 			u.mu.Lock()
